@@ -514,14 +514,33 @@ where
     pub fn remove(&mut self, key: Handle) -> Option<T> {
         let ind = self.find_ind(key);
         unsafe {
-            let kptr = self.handles.as_ptr().add(ind);
-            if (*kptr).0 != 0 {
-                self.count -= 1;
-                *kptr = Handle(0);
-                Some(std::ptr::read(self.values.as_ptr().add(ind)))
-            } else {
-                None
+            let handles = self.handles.as_ptr();
+            let values = self.values.as_ptr();
+            if (*handles.add(ind)).0 == 0 {
+                return None;
             }
+            self.count -= 1;
+            *handles.add(ind) = Handle(0);
+            let result = std::ptr::read(values.add(ind));
+
+            // move the following entries of the cluster back, so lookups that probed past
+            // the removed slot still find them
+            let mask = self.capacity - 1;
+            let mut i = ind; // the empty slot
+            let mut j = (i + 1) & mask;
+            while (*handles.add(j)).0 != 0 {
+                let k = *handles.add(j);
+                let home = (k.0.wrapping_mul(2654435769) as usize) & mask;
+                // move if the empty slot lies cyclically between the home slot and j
+                if (j.wrapping_sub(i) & mask) <= (j.wrapping_sub(home) & mask) {
+                    *handles.add(i) = k;
+                    *handles.add(j) = Handle(0);
+                    std::ptr::copy_nonoverlapping(values.add(j), values.add(i), 1);
+                    i = j;
+                }
+                j = (j + 1) & mask;
+            }
+            Some(result)
         }
     }
 }
